@@ -45,6 +45,7 @@ def d2(self):
 def dec_getToken(self: Obj("ReadDecoder"), index: Int, data: ByteArray) -> Str:
     requires(2 < index and index < 236 and index < len(d1(self)))          # how readString calls it: a primary token byte
     raises(ValueError)
+    raises(IndexError)          # the fall-back path reads one more byte: a truncated frame
     modifies(data)      # only on the fall-back path (an empty primary entry): the next byte selects a secondary entry
     # a primary token byte decodes to its table entry, consuming nothing more
     ensures(implies(len(d1(self)[index]) > 0, result == d1(self)[index] and n_events("readInt8") == 0 and data == old(data)))
